@@ -155,6 +155,13 @@ def judge(t):
                 continue
             if str(R.get(m)) != 'borrowed' or not any(p.ok for p in puts.get(m, [])):
                 V('C19.3-verbatim', 'borrowed %s was not written/reported borrowed (%s) although no failure remains' % (m, R.get(m)), what='borrowed-not-written')
+    # ... and then nothing else is held back either: every module that was generated gets written
+    if not F and opts.get('writeMibs', True) and not scn.get('writer_fail') and not any(c.site == 'writer.putData' and not c.ok for c in t.calls):
+        for m in sorted(gen_ok):
+            if m in supplied and m not in gen_text:
+                continue
+            if str(R.get(m)) != 'compiled':
+                V('C19.3-verbatim', 'no failure remains after borrowing, yet generated module %s is reported %s' % (m, R.get(m)), what='built-held-back', status=str(R.get(m)), module=m)
     if bcalls:
         t.world.probe('borrower-consulted')
     if supplied:
@@ -182,7 +189,7 @@ def generate(rng, tier):
         return gen_layer2(rng, tier)
     scn = cs.gen_world(rng, tier, focus='C19')
     if rng.random() < 0.6:
-        scn['files'] = {}
+        scn['files'] = {k: v for k, v in scn['files'].items() if k in scn.get('file_alias', {})}
         scn.pop('co_only', None)
     if rng.random() < 0.4:
         scn['options']['noDeps'] = True
